@@ -304,14 +304,16 @@ macro_rules! family {
             // sum of the absolute values of the terms; sin/cos are counted as one operation with <= 1 ulp = 2u error).
             /// Rodrigues entry: cos, 1-cos, a_i*a_j, *(1-cos), + a_k*sin  -> 5 + 2, rounded up
             const K_AA: f64 = 8.0;
-            /// axis-angle quaternion component: sin(angle/2), a_i * sin -> 2 + 2
-            const K_AAQ: f64 = 4.0;
+            /// axis-angle quaternion component a_i * sin(angle/2): sin (<= 1 ulp = 2u) + product (u) = 3u, + 2 -> 5, rounded up
+            const K_AAQ: f64 = 6.0;
             /// literal single-axis patterns: one trigonometric value per entry (1 ulp = 2u) + 2
             const K_EL: f64 = 4.0;
             /// Vec2::rotate of Vec2::from_angle: cos, *, -  -> 3 + 2, rounded up
             const K_V2: f64 = 6.0;
-            /// Euler matrix / quaternion entries: sin_cos, two products, one sum -> 4 + 2, rounded up (calibrated <= 2.3)
-            const K_EU: f64 = 8.0;
+            /// Euler matrix / quaternion entries are sums of monomials of up to three trigonometric factors: three factors
+            /// (<= 1 ulp = 2u each) + two products + one sum = 9u relative to the sum of |monomials|, + 2 -> 11, rounded up
+            /// (first calibration with "sin_cos = one operation", k = 8, gave headroom 0.56: the derivation was revisited)
+            const K_EU: f64 = 12.0;
             /// Euler extraction round trip from a MATRIX, multiplies u * (1 + 1/d) (DESIGN calibration: worst observed 2.3)
             const K_RT: f64 = 8.0;
             /// ... from a QUATERNION: to_euler first forms Mat3::from_quat(q), whose entries 1 - (yy + zz), xy +- wz carry up
@@ -319,8 +321,9 @@ macro_rules! family {
             /// atan2(d sin, d cos) turns an entry error e into sqrt(2) e / d and both add up in the rebuilt matrix:
             /// 2 sqrt(2) * 5u / d = 14.1 u/d, plus the K_RT = 8 of the extraction itself -> 22.1, rounded up to 24.
             const K_RT_Q: f64 = 24.0;
-            /// to_axis_angle rebuild in quaternion space: length (2.5u), atan2 (1 ulp of <= pi: 2*pi*u), v/length (3.5u) -> <= 11u
-            const K_X: f64 = 16.0;
+            /// to_axis_angle rebuild in quaternion space: half angle atan2(|v|, w) <= pi carries 1 ulp (2*pi*u) + the 2.5u of
+            /// |v| (1.25u), the axis v/|v| 3.5u -> <= 11u; the tolerance is twice that bound, rounded up
+            const K_X: f64 = 24.0;
 
             fn q_arr(q: $Q) -> [f64; 4] {
                 let a = q.to_array();
@@ -405,7 +408,8 @@ macro_rules! family {
                     t.ratio("ctor/quat-action", e / tol);
                 }
                 // ---- from_scaled_axis(axis * angle): reference from the STORED product vector v: angle |v| about v/|v|.
-                // |v| computed in the type carries 2.5u relative error, i.e. 2.5u|v| in the angle: tolerance (8 + 2|v|) u.
+                // |v| computed in the type (3 squares, 2 sums, sqrt) carries <= 2.5u relative error, i.e. 1.25u|v| in the half
+                // angle (observed 1.03u|v|); v/|v| carries 3.5u: tolerance (8 + 2.5|v|) u.
                 {
                     let v: [T; 3] = [at[0].mul(angle), at[1].mul(angle), at[2].mul(angle)];
                     let vd = [dd(v[0].to_f64()), dd(v[1].to_f64()), dd(v[2].to_f64())];
@@ -417,7 +421,7 @@ macro_rules! family {
                         let (sh, ch) = refm::sincos(refm::scale2(len, 0.5));
                         [vd[0].div(len).mul(sh), vd[1].div(len).mul(sh), vd[2].div(len).mul(sh), ch]
                     };
-                    let tol = if len.f() == 0.0 { 0.0 } else { (8.0 + 2.0 * len.f()) * U };
+                    let tol = if len.f() == 0.0 { 0.0 } else { (8.0 + 2.5 * len.f()) * U };
                     cmpq(t, if huge { "ctor/scaled-axis@huge" } else { "ctor/scaled-axis" }, TQ, "from_scaled_axis", &q, &qref, None, 0.0, tol, &|| format!("v={:?}; {}", v, ctx()))?;
                 }
                 // ---- from_rotation_x / y / z: the literal single-axis patterns, every form
@@ -589,7 +593,7 @@ macro_rules! family {
                     return Err(fail(ty, "from_euler(to_euler)", format!("order {}: from_euler(to_euler(R)) differs from R by {:.3e} > {:.3e} (d = {:.3e}, {}); angles ({a:e}, {b:e}, {c:e}); {}", o.name, e2, tol2, d, dec, ctx())));
                 }
                 t.ratio(&format!("roundtrip-glam{}/{fam}/{dec}/{src}", if ty == TQ { "-quat" } else { "" }), e2 / tol2);
-                if src == "self-produced" {
+                if src == "self-produced" && ty != TQ {
                     // reported, not enforced: matrices produced by from_euler carry relative entry errors and round-trip
                     // with an absolute error that does not grow towards the singularity (DESIGN calibration <= ~54u)
                     t.ratio(&format!("info:self-produced-abs-error/(128u)/{fam}/{dec}"), e1 / (128.0 * U));
@@ -751,56 +755,58 @@ macro_rules! family {
                 let (axis, angle) = q.to_axis_angle();
                 let ax = axis.to_array();
                 let (axd, th) = ([ax[0].to_f64(), ax[1].to_f64(), ax[2].to_f64()], angle.to_f64());
-                // documented threshold: vector part shorter than 1e-8 -> (X, 0)
-                const THR: f64 = 1.0e-8;
-                let tiny = if vlen < THR * (1.0 - 1e-6) {
-                    Some(true)
-                } else if vlen > THR * (1.0 + 1e-6) {
-                    Some(false)
-                } else {
-                    t.class("extract:boundary");
-                    None
-                };
+                // The singularity of this extraction is the zero rotation; distance from it = the rotation angle theta.
+                // glam guards it (`length >= EPSILON` else the documented fallback (X, 0) / ZERO). The fallback rebuilds the
+                // identity, i.e. is off by theta itself, which the statement allows while theta <= k*u/theta (k = 8):
+                // theta^2 <= 8u. Anything else must rebuild +-q to K_X*u. (For f32 the guard 1e-8 is far below sqrt(8u);
+                // for f64 theta < 2e-8 gives theta^2/(8u) <= 0.45. A guard raised to 1e-6 would fail: 4e-12 > 8.9e-16.)
+                let theta = 2.0 * vlen.atan2(qa[3].abs());
+                let fallback_tol = K_RT * U;
                 let is_x0 = axd == [1.0, 0.0, 0.0] && th == 0.0;
-                if tiny == Some(true) && !is_x0 {
-                    return Err(fail(TQ, "to_axis_angle", format!("tiny rotation should return (X, 0), got ({:?}, {:e}); {}", ax, th, ctx())));
-                }
-                if tiny == Some(false) || (tiny.is_none() && !is_x0) {
-                    let n = dd(axd[0]).mul(dd(axd[0])).add(dd(axd[1]).mul(dd(axd[1]))).add(dd(axd[2]).mul(dd(axd[2]))).sqrt().sub(refm::ONE).abs().f();
-                    let tol = 6.0 * U;
-                    if !(n <= tol) {
-                        return Err(fail(TQ, "to_axis_angle", format!("axis {:?} is not unit: | |axis| - 1 | = {:.3e} > {:.3e}; {}", ax, n, tol, ctx())));
-                    }
-                    t.ratio("extract/axis-unit", n / tol);
-                }
                 let two_pi = std::f64::consts::TAU * (1.0 + 2.0 * U);
                 if !(th >= 0.0 && th <= two_pi) {
                     return Err(fail(TQ, "to_axis_angle", format!("angle {:e} outside [0, 2pi]; {}", th, ctx())));
                 }
-                // rebuild +-q from (axis, angle) with the reference
-                {
+                if is_x0 {
+                    t.class("extract:tiny-branch(X,0)");
+                    if !(theta * theta <= fallback_tol) {
+                        return Err(fail(TQ, "to_axis_angle(tiny branch)", format!("returned the fallback (X, 0) for a rotation by theta = {:.3e}: theta^2 = {:.3e} > 8u = {:.3e}; {}", theta, theta * theta, fallback_tol, ctx())));
+                    }
+                    t.ratio("extract/tiny-branch:theta^2/(8u)", theta * theta / fallback_tol);
+                } else {
+                    let n = dd(axd[0]).mul(dd(axd[0])).add(dd(axd[1]).mul(dd(axd[1]))).add(dd(axd[2]).mul(dd(axd[2]))).sqrt().sub(refm::ONE).abs().f();
+                    let tol = 8.0 * U; // v/|v|: |v| 2.5u + division u = 3.5u per component, twice that rounded up
+                    if !(n <= tol) {
+                        return Err(fail(TQ, "to_axis_angle", format!("axis {:?} is not unit: | |axis| - 1 | = {:.3e} > {:.3e}; {}", ax, n, tol, ctx())));
+                    }
+                    t.ratio("extract/axis-unit", n / tol);
+                    // rebuild +-q from (axis, angle) with the reference
                     let (sh, ch) = refm::sincos(dd(th * 0.5));
                     let rb: Q = [dd(axd[0]).mul(sh), dd(axd[1]).mul(sh), dd(axd[2]).mul(sh), ch];
                     let got = [rb[0].f(), rb[1].f(), rb[2].f(), rb[3].f()];
-                    let op = if is_x0 { "to_axis_angle(tiny branch)" } else { "to_axis_angle" };
-                    cmpq(t, if is_x0 { "extract/rebuild-tiny-branch" } else { "extract/rebuild" }, TQ, op, &got, &qn, None, 0.0, K_X * U, &|| format!("(axis, angle) = ({:?}, {:e}) rebuilds the quaternion shown as 'quaternion', reference is q normalised; {}", ax, th, ctx()))?;
+                    cmpq(t, "extract/rebuild", TQ, "to_axis_angle", &got, &qn, None, 0.0, K_X * U, &|| format!("(axis, angle) = ({:?}, {:e}) rebuilds the quaternion shown as 'quaternion', reference is q normalised; {}", ax, th, ctx()))?;
                 }
-                // to_scaled_axis: angle |v| about v/|v|
+                // to_scaled_axis: angle |v| about v/|v|; consistent with to_axis_angle (axis * angle, lane by lane)
                 {
                     let sv = q.to_scaled_axis().to_array();
+                    for i in 0..3 {
+                        let e = ax[i].mul(angle);
+                        if sv[i].bits() != e.bits() && !(sv[i].to_f64() == 0.0 && e.to_f64() == 0.0) {
+                            return Err(fail(TQ, "to_scaled_axis", format!("component {i} = {:?} is not axis * angle = {:?} of to_axis_angle; {}", sv[i], e, ctx())));
+                        }
+                    }
                     let vd = [dd(sv[0].to_f64()), dd(sv[1].to_f64()), dd(sv[2].to_f64())];
                     let len = vd[0].mul(vd[0]).add(vd[1].mul(vd[1])).add(vd[2].mul(vd[2])).sqrt();
-                    let rb: Q = if len.f() == 0.0 {
-                        [refm::Z, refm::Z, refm::Z, refm::ONE]
+                    if len.f() == 0.0 {
+                        if !(theta * theta <= fallback_tol) {
+                            return Err(fail(TQ, "to_scaled_axis(tiny branch)", format!("returned ZERO for a rotation by theta = {:.3e}: theta^2 = {:.3e} > 8u = {:.3e}; {}", theta, theta * theta, fallback_tol, ctx())));
+                        }
+                        t.ratio("extract/tiny-branch:theta^2/(8u)", theta * theta / fallback_tol);
                     } else {
                         let (sh, ch) = refm::sincos(refm::scale2(len, 0.5));
-                        [vd[0].div(len).mul(sh), vd[1].div(len).mul(sh), vd[2].div(len).mul(sh), ch]
-                    };
-                    let got = [rb[0].f(), rb[1].f(), rb[2].f(), rb[3].f()];
-                    let op = if len.f() == 0.0 { "to_scaled_axis(tiny branch)" } else { "to_scaled_axis" };
-                    cmpq(t, if len.f() == 0.0 { "extract/scaled-axis-tiny-branch" } else { "extract/scaled-axis" }, TQ, op, &got, &qn, None, 0.0, (K_X + len.f()) * U, &|| format!("scaled axis {:?} rebuilds the quaternion shown as 'quaternion', reference is q normalised; {}", sv, ctx()))?;
-                    if tiny == Some(true) && sv.iter().any(|x| x.to_f64() != 0.0) {
-                        return Err(fail(TQ, "to_scaled_axis", format!("tiny rotation should return the zero vector, got {:?}; {}", sv, ctx())));
+                        let rb: Q = [vd[0].div(len).mul(sh), vd[1].div(len).mul(sh), vd[2].div(len).mul(sh), ch];
+                        let got = [rb[0].f(), rb[1].f(), rb[2].f(), rb[3].f()];
+                        cmpq(t, "extract/scaled-axis", TQ, "to_scaled_axis", &got, &qn, None, 0.0, (K_X + len.f()) * U, &|| format!("scaled axis {:?} rebuilds the quaternion shown as 'quaternion', reference is q normalised; {}", sv, ctx()))?;
                     }
                 }
                 Ok(())
@@ -817,7 +823,7 @@ macro_rules! family {
                     format!("rot-ctor/{}/{}", FAM, VARIANT),
                     4,
                     |env: &mut Env| {
-                        let n = env.cases(100_000, 30);
+                        let n = env.cases(100_000, 20);
                         env.prop("ctor", n, strat_ctor(), &check_ctor);
                     },
                     check_ctor,
@@ -826,7 +832,7 @@ macro_rules! family {
                     format!("from-euler/{}/{}", FAM, VARIANT),
                     4,
                     |env: &mut Env| {
-                        let n = env.cases(24 * 8_000, 30);
+                        let n = env.cases(24 * 8_000, 20);
                         env.prop("from-euler", n, strat_from_euler(), &check_from_euler);
                     },
                     check_from_euler,
@@ -835,7 +841,7 @@ macro_rules! family {
                     format!("euler-roundtrip/{}/{}", FAM, VARIANT),
                     8,
                     |env: &mut Env| {
-                        let n = env.cases(24 * 8_000, 30);
+                        let n = env.cases(24 * 8_000, 20);
                         env.prop("roundtrip", n, strat_roundtrip(), &check_roundtrip);
                     },
                     check_roundtrip,
@@ -844,7 +850,7 @@ macro_rules! family {
                     format!("axis-angle-extract/{}/{}", FAM, VARIANT),
                     2,
                     |env: &mut Env| {
-                        let n = env.cases(100_000, 30);
+                        let n = env.cases(100_000, 20);
                         env.prop("extract", n, strat_extract(), &check_extract);
                     },
                     check_extract,
